@@ -359,6 +359,55 @@ theorem firstAbove_is_first_blocking_side (lo : Rat) (rects : List Rect) (px py 
       simp only [Bool.not_eq_true', Bool.or_eq_false_iff, beq_eq_false_iff_ne, ne_eq] at hoff
       refine ⟨R, hmem, lt_of_le_of_ne hy.1 (Ne.symm hoff.1), lt_of_le_of_ne hy.2 hoff.2, hcond.2, hv.symm⟩
 
+/-- where a horizontal and a vertical line of the model meet, they share a vertex (same point, same
+    kind): the graph can be left from one line onto the other there -/
+theorem crossing_shared (s : Scene) (ph pv : Seg × List LV) (hh : ph ∈ s.lines.hs) (hv : pv ∈ s.lines.vs)
+    (hc : crosses ph.1 pv.1 = true) :
+    ∃ k, (⟨pv.1.p, k⟩ : LV) ∈ ph.2 ∧ (⟨ph.1.p, k⟩ : LV) ∈ pv.2 := by
+  obtain ⟨_, e1⟩ := lines_hs_form s ph hh
+  obtain ⟨hvm, e2⟩ := lines_vs_form s pv hv
+  have : ∃ q ∈ ph.2, q.t = pv.1.p := by
+    rw [e1]
+    unfold hVerts
+    apply exists_at_foldl_ensure
+    exact List.mem_map.mpr ⟨pv.1, List.mem_filter.mpr ⟨hvm, hc⟩, rfl⟩
+  obtain ⟨q, hq, hqt⟩ := this
+  refine ⟨q.k, ?_, ?_⟩
+  · rw [← hqt]; exact hq
+  · rw [e2]
+    apply mem_vVerts_of_from _ _ _ _ ph hh
+    unfold vFrom
+    rw [if_pos hc]
+    apply List.mem_append_left
+    exact List.mem_map.mpr ⟨q, List.mem_filter.mpr ⟨hq, by simp [hqt]⟩, rfl⟩
+
+/-- every rectangle side (without other boxes overlapping it) lies, with both corner vertices, on a
+    horizontal line of the model that extends to the nearest box side to the left and to the right -/
+theorem side_on_hline (s : Scene) (i : Nat) (v : Rect) (hv : s.rects[i]? = some v) (y : Rat) (hy : y = v.y0 ∨ y = v.y1)
+    (hn : (findLimits s.lo s.hi (activeAt (s.rects.eraseIdx i) y) v y).minLimitMax ≥
+          (findLimits s.lo s.hi (activeAt (s.rects.eraseIdx i) y) v y).maxLimitMin) :
+    ∃ p ∈ s.lines.hs, p.1.p = y ∧ (⟨v.x0, .node⟩ : LV) ∈ p.2 ∧ (⟨v.x1, .node⟩ : LV) ∈ p.2 ∧
+      p.1.b ≤ (findLimits s.lo s.hi (activeAt (s.rects.eraseIdx i) y) v y).minLimit ∧
+      (findLimits s.lo s.hi (activeAt (s.rects.eraseIdx i) y) v y).maxLimit ≤ p.1.f := by
+  have hraw : (⟨(findLimits s.lo s.hi (activeAt (s.rects.eraseIdx i) y) v y).minLimit,
+      (findLimits s.lo s.hi (activeAt (s.rects.eraseIdx i) y) v y).maxLimit, y,
+      [⟨v.x0, .node⟩, ⟨v.x1, .node⟩]⟩ : Seg) ∈ rawH s.lo s.hi s.rects s.fixDirs := by
+    unfold rawH
+    apply List.mem_append_left
+    refine List.mem_flatMap.mpr ⟨(v, i), List.mem_zipIdx_iff_getElem?.mpr hv, ?_⟩
+    simp only
+    rcases hy with rfl | rfl
+    · apply List.mem_append_left
+      unfold sideSegsH
+      simp only [if_pos hn, List.mem_singleton]
+    · apply List.mem_append_right
+      unfold sideSegsH
+      simp only [if_pos hn, List.mem_singleton]
+  obtain ⟨m, hm, hp, hb, hf, hvs⟩ := mergeAll_covers _ _ hraw
+  exact ⟨_, mem_lines_hs s m hm, hp, mem_hVerts_of_mem _ _ _ _ (hvs _ (by simp)),
+    mem_hVerts_of_mem _ _ _ _ (hvs _ (by simp)), hb, hf⟩
+
+
 /-! ### non-vacuity: a closed scene (one routing box, one connector with a restricted source) -/
 
 /-- box [2,4]×[2,4]; source (0,3) may only be left to the Right, target (6,3) in all directions -/
